@@ -162,3 +162,12 @@ PROPS["C41"] = dict(
          "body was bound, i.e. whether narrowing after the loop can ignore the body. Three of the four binders do so by design on "
          "the pinned tree (open known findings, each with the failing program); repeat-until satisfies the rule.",
     note="Type-level soundness of the merge is not decided. Trusted: rustc MIR, emmyfacts; binders are found by signature.")
+
+PROPS["C21"] = dict(
+    module="c21", func="run", level="other", crates=["emmylua_parser", "emmylua_code_analysis"],
+    technique="table agreement between t! call sites recovered from MIR and the locale files + loop must-pass-through in SyntaxErrorChecker",
+    text="Decides two clauses: (a) every translated diagnostic/parse message is fully rendered in every locale (placeholders of the "
+         "key and of each translation are supplied at the call site), exhaustively over all t! sites of the parser and the "
+         "analysis crate; (b) every parse error of a file is forwarded as a diagnostic with its own range and message, and "
+         "codes/severities come from the single constructor.",
+    note="Range-inside-document, start<=end for arbitrary checkers and duplicates are not decided. Trusted: rustc MIR, emmyfacts, PyYAML.")
